@@ -75,6 +75,11 @@ PROBES.update({
  "member_cls_and_func": "import mypkg.other as o\n\nclass B(o.K):\n    def m(self):\n        return o.g() + 1\n\nalias = o.K\nfn = o.g\n",
 })
 
+PROBES.update({
+ "two_properties_with_setters": "class A:\n    @property\n    def p(self) -> int: ...\n    @p.setter\n    def p(self, v: int) -> None: ...\n    @property\n    def q(self) -> int: ...\n    @q.setter\n    def q(self, v: int) -> None: ...\n\nclass B:\n    @property\n    def p(self) -> str: ...\n    @p.setter\n    def p(self, v: str) -> None: ...\n",
+ "overloads_without_impl": "from typing import overload, Protocol\nclass P(Protocol):\n    @overload\n    def f(self, x: int) -> int: ...\n    @overload\n    def f(self, x: str) -> str: ...\n\nclass Q(Protocol):\n    @overload\n    def f(self, x: int) -> int: ...\n    @overload\n    def f(self, x: str) -> str: ...\n",
+})
+
 OTHER = "def g() -> int:\n    return 1\n\n\nclass K:\n    pass\n"
 
 
